@@ -46,7 +46,8 @@ def exhaustive(tier):
 
 
 def model_runs(tier):
-    return []
+    from harness import algo
+    return algo.hopcroft(tier) + algo.minimize_equiv(tier)
 
 
 def hashseeds(tier):
@@ -75,6 +76,31 @@ def random_pairs(n, seed):
     return cases
 
 
+def random_dfas(n, seed):
+    """Dense random DFAs with 5-8 states over {a,b} (refinement bugs of the partition need that size), paired with a
+    perturbed copy: same calls plus one changed final state or transition."""
+    rnd = random.Random(seed)
+    cases = []
+    for _ in range(n):
+        nq = rnd.randint(5, 8)
+        calls = [["add_start_state", "q0"]]
+        for i in range(nq):
+            for a in ("a", "b"):
+                if rnd.random() < 0.9:
+                    calls.append(["add_transition", "q%d" % i, a, "q%d" % rnd.randrange(nq)])
+        for i in range(nq):
+            if rnd.random() < 0.4:
+                calls.append(["add_final_state", "q%d" % i])
+        other = list(calls)
+        if rnd.random() < 0.5:
+            other.append(["add_final_state", "q%d" % rnd.randrange(nq)])
+        else:
+            other = [c for c in other if c[0] != "add_final_state" or rnd.random() < 0.8]
+        cases.append(dict(kindA="dfa", kindB="dfa", callsA=calls, callsB=other, spool="int5", ypool="ab", permA=None,
+                          permB=None, family="random-dfa"))
+    return cases
+
+
 def pair_cases(tier, seed, work, stats, fams):
     cases = []
     for fam in fams:
@@ -97,6 +123,7 @@ def pair_cases(tier, seed, work, stats, fams):
 def generate(tier, seed, work, stats):
     cases = pair_cases(tier, seed, work, stats, families(tier))
     cases += random_pairs(1500 if tier == "quick" else 30000, seed)
+    cases += random_dfas(1500 if tier == "quick" else 30000, seed + 5)
     return cases
 
 
